@@ -93,7 +93,7 @@ def children(schedule, obs, menu, fault_kinds):
             if li <= maxf or st < last_istep:
                 continue
             kinds = [k for k in fault_kinds if k == "raise" or op in STATUS_OPS]
-            if op in ("stop", "unstage", "subscribe", "clear_sub", "pause", "resume"):
+            if op in ("stop", "subscribe", "clear_sub", "pause", "resume"):
                 continue  # declared infallible in the fakes
             for k in kinds:
                 f2 = dict(faults)
